@@ -31,8 +31,9 @@ ops (one case = the requests sent over ONE connection, in order; or one `tokens`
 
 out:
 
-    r status=<n> acao=<*|-|other> acam=<std|-|other> acma=<86400|-|other> acah=<echo|-|other> acx=<-|n> body=<class>
-        acx = number of further `access-control-*` response headers; class = landing-p | landing-n |
+    r status=<n> acao=<*|-|other> acam=<std|-|other> acma=<86400|-|other> acah=<echo|-|other> acx=<-|n> xo=<-|n> body=<class>
+        acx = number of further `access-control-*` response headers; xo = number of `Timing-Allow-Origin` /
+        `Cross-Origin-Resource-Policy` response headers; class = landing-p | landing-n |
         profile | json | empty | other
     closed         no response: connection closed (panic of the connection task, or an earlier
                    request of the case killed / closed the connection)
@@ -169,9 +170,9 @@ def showResp (r : Resp) : String :=
     | .options _ => "empty"
     | .profile _ => "profile"
     | .api _ => "json"
-  s!"r status={r.status} acao={if r.allowOrigin then "*" else "-"} acam={if r.allowMethods then "std" else "-"} acma={if r.maxAge then "86400" else "-"} acah={if r.allowHeaders.isSome then "echo" else "-"} acx=- body={body}"
+  s!"r status={r.status} acao={if r.allowOrigin then "*" else "-"} acam={if r.allowMethods then "std" else "-"} acma={if r.maxAge then "86400" else "-"} acah={if r.allowHeaders.isSome then "echo" else "-"} acx=- xo=- body={body}"
 
-def rejectedLine : String := "r status=400 acao=- acam=- acma=- acah=- acx=- body=empty"
+def rejectedLine : String := "r status=400 acao=- acam=- acma=- acah=- acx=- xo=- body=empty"
 
 def tokensLine : String := "tokens distinct=yes len=39 alphabet=ok varied=yes"
 
@@ -274,7 +275,7 @@ def judgeReq (l o : String) (dead : List Nat) : (Bool × String) × List Nat :=
       let after := if r.http11 && keepAlive (wireOf r) then dead else kill
       if under then ((true, "ok"), after) else
       let what := s!"{r.methodName} {String.ofList r.target} (path does not begin with the token prefix)"
-      let cors := [kv ws "acao", kv ws "acam", kv ws "acma", kv ws "acah", kv ws "acx"]
+      let cors := [kv ws "acao", kv ws "acam", kv ws "acma", kv ws "acah", kv ws "acx", kv ws "xo"]
       if cors.any (· ≠ "-") then
         ((false, s!"cross-origin permission header outside the secret prefix: {o} for {what}"), after)
       else
